@@ -38,8 +38,18 @@ def _run_chunk(root, cases, workdir, tag, sanitize, timeout, max_crashes=40):
                 results.setdefault(i, ["skipped"])
             break
         guard += 1
-        p = subprocess.run([C.PY, WORKER, root, cp, op] + (["exact"] if sanitize else ["guard"]) + [str(start)],
-                           env=env, stdout=subprocess.PIPE, stderr=subprocess.PIPE, timeout=timeout)
+        timed_out = False
+        try:
+            p = subprocess.run([C.PY, WORKER, root, cp, op] + (["exact"] if sanitize else ["guard"]) + [str(start)],
+                               env=env, stdout=subprocess.PIPE, stderr=subprocess.PIPE, timeout=timeout)
+        except subprocess.TimeoutExpired as e:
+            # a hanging native call is an observation (counts like a crash of the case that was running), never a hung check
+            timed_out = True
+
+            class _P:
+                returncode = -999
+                stderr = e.stderr or b""
+            p = _P()
         cur = None
         for line in p.stderr.decode("utf-8", "replace").split("\n"):
             if line.startswith("@@CASE "):
@@ -67,6 +77,8 @@ def _run_chunk(root, cases, workdir, tag, sanitize, timeout, max_crashes=40):
             break
         err = p.stderr.decode("utf-8", "replace")
         kind = "crash"
+        if timed_out:
+            err = "TIMEOUT after %d s (hang)" % timeout
         if "AddressSanitizer" in err:
             kind = "asan"
         elif "runtime error" in err:
@@ -87,7 +99,7 @@ def _first_report_line(err):
     return err.strip()[-300:]
 
 
-def run_real(cases, workdir, sanitize=False, nproc=12, timeout=3000, max_crashes=40):
+def run_real(cases, workdir, sanitize=False, nproc=12, timeout=420, max_crashes=40):
     """Results of the real code for every case: ["ok", ...] | ["exc", type, msg] | ["crash"|"asan"|"ubsan", rc, report]."""
     if not cases:
         return []
